@@ -572,7 +572,7 @@ def run_case(case, vector):
         elif s == "derive":
             fd = lambda v_: _derive(v_, st["how"], st["a"])  # noqa: E731
             rg, rm = twin_call(i, lambda: fd(Gv), lambda: fd(Mv))
-            if _both(i, st, rg, rm, viol, be, "derive:" + st["how"]):
+            if _both(i, st, rg, rm, viol, be, "derive:" + st["how"]) and rg[1] is not Gv and rm[1] is not Mv:
                 rels.append((rg[1], rm[1]))
         elif s == "set":
             g, m, val = st["g"], st["m"], st["val"]
